@@ -2455,6 +2455,13 @@ impl Connection {
                         );
                     }
 
+                    if unprotected && self.state.is_closed() {
+                        // Nothing authenticates these packets and a closed connection has no use
+                        // for them: their bytes must not be parsed as frames or change our state
+                        trace!("discarding unprotected packet for closed connection");
+                        return;
+                    }
+
                     self.process_decrypted_packet(now, remote, number, packet)
                 }
             }
